@@ -218,10 +218,18 @@ func sqtBody(in J, s string) string {
 	leaf := map[string]any{op: map[string]any{sqtKeyWith(key, pos, s): sqtValue(pos, vtype, s)}}
 	ep, _ := in["ep"].(string)
 	sibKey := "metadata[sib]"
+	var sibVal any = "sibling"
 	if ep == "logs.list" {
 		sibKey = "date"
+	} else if b, _ := in["sib"].(string); b == "bound" {
+		// a sibling whose value travels as a bound argument: a placeholder smuggled into the leaf would steal it
+		if strings.HasPrefix(ep, "transactions") {
+			sibKey = "reference"
+		} else if strings.HasPrefix(ep, "accounts") {
+			sibKey, sibVal = "balance[USD]", 10
+		}
 	}
-	sib := map[string]any{"$match": map[string]any{sibKey: "sibling"}}
+	sib := map[string]any{"$match": map[string]any{sibKey: sibVal}}
 	var top any = leaf
 	switch wrap {
 	case "and-before":
